@@ -79,9 +79,9 @@ CHECKS = {
    "Every decoder entry point the statement lists is executed on every input of its bounded neighbourhood (including Format() of every returned device-path node and the in-memory store's descriptor probe); only 'returned' is accepted. The static scan enumerates all log.Fatal/os.Exit/panic/BytesOrPanic call sites of the library packages in the current tree; new sites are reported as coverage goals.",
    "Same limits as C13; the static part over-approximates (remaining 9 sites are encoders writing to in-memory buffers) and is never an alarm by itself.", "DESIGN.md section 4 C14"),
  "C19": ("model_checking", "E-seq + E-sched (+ free-running -race pass)",
-   "stateless model checking of the real code: cooperative scheduler with scheduling points at every access to a shared io/bytes cursor or buffer object (import-rewritten build), iterative preemption-bounded DFS over all 2- and 3-thread harnesses of read-only operations; exhaustive sequential repetition (all sequences <= 4) with a reflection-based deep state dump; separate free-running race-detector build",
-   "Every multiset of read-only operations (2 threads x 1-2 operations, 3 threads x 1 operation) on one shared parsed image / database / signed-update value is executed under every schedule within the preemption bound on fresh real objects, and every result is compared with the sequential reference; all operation sequences up to length 4 are run with the object's complete private state (cursors included) compared before and after each call; a 16-goroutine -race build of the same bodies is a separate non-exhaustive confirmation.",
-   "Scheduling granularity is the shimmed io.SectionReader / bytes.Buffer / bytes.Reader operations; races on plain fields are only visible to the -race pass and the state dump; preemption bound 2 (2 threads) / 1 (3 threads) quick, 3 / 2 thorough, execution cap per harness reported when hit.", "DESIGN.md section 4 C19"),
+   "stateless model checking of the real code: cooperative scheduler with scheduling points at every access to a shared io/bytes cursor or buffer object and at every sync lock / Once / WaitGroup operation (import-rewritten build; blocked goroutines are parked, a state with only parked goroutines is a deadlock), iterative preemption-bounded DFS over all 2- and 3-thread harnesses of read-only operations; exhaustive sequential repetition (all sequences <= 4, every operation 64 times) with a reflection-based deep state dump, and modifying operations after every read-only prefix of length <= 2; separate free-running race-detector build",
+   "Every multiset of read-only operations (2 threads x 1-2 operations, 3 threads x 1 operation) on one shared parsed image / database / signed-update value is executed under every schedule within the preemption bound on fresh real objects, and every result is compared with the sequential reference; all operation sequences up to length 4 are run with every result compared with the fresh-object result and the object's complete private state (cursors included) dumped before and after each call (a change of exported fields, or private state that changes again when the call is repeated, is a violation; a one-time private fill such as a memo is not); after every read-only prefix a modifying call and all read-only calls must give what they give on an object never looked at; a 16-goroutine -race build of the same bodies is a separate non-exhaustive confirmation.",
+   "Scheduling granularity is the shimmed io.SectionReader / bytes.Buffer / bytes.Reader and sync operations (sync/atomic operations are not scheduling points); races on plain fields are only visible to the -race pass and the state dump; preemption bound 2 (2 threads) / 1 (3 threads) quick, 3 / 2 thorough, execution cap per harness reported when hit.", "DESIGN.md section 4 C19"),
 }
 
 NOT_YET = "check not built yet in this round (planned, see DESIGN.md section 4); no claim is made"
@@ -118,7 +118,7 @@ def main():
             {"name": "hx", "path": "mc/internal/hx", "serves_properties": sorted(CHECKS), "kind_free_text": "unit-sharded bounded enumeration in sandboxed worker processes (ulimit -v, liveness watchdog, death attribution), violation confirmation by re-execution, evidence writer"},
             {"name": "ovgen", "path": "mc/cmd/ovgen", "serves_properties": sorted(CHECKS), "kind_free_text": "import-rewrite overlay generator (log.Fatal/os.Exit become observable outcomes; controllable clock; io/bytes redirected to instrumented wrappers for the scheduler build)"},
             {"name": "E-seq", "path": "mc/props/c09.go mc/props/c12.go mc/props/c03.go", "serves_properties": ["C03", "C09", "C12", "C19"], "kind_free_text": "explicit-state breadth-first search over operation sequences on the real objects (replay on fresh instances, exact state deduplication)"},
-            {"name": "E-sched", "path": "mc/props/c19.go mc/shim/sched mc/shim/vio mc/shim/vbytes", "serves_properties": ["C19"], "kind_free_text": "cooperative scheduler + iterative preemption-bounded stateless DFS (CHESS style) over goroutines running real library calls"},
+            {"name": "E-sched", "path": "mc/props/c19.go mc/shim/sched mc/shim/vio mc/shim/vbytes mc/shim/vsync", "serves_properties": ["C19"], "kind_free_text": "cooperative scheduler + iterative preemption-bounded stateless DFS (CHESS style) over goroutines running real library calls"},
             {"name": "E-fault", "path": "mc/props/c15.go mc/internal/recfs", "serves_properties": ["C15", "C11"], "kind_free_text": "deviation-bounded fault enumeration at caller-supplied seams; recording filesystem"},
         ],
         "checks": checks,
